@@ -26,6 +26,17 @@ pub assume_specification [ f64::is_infinite ] (x: f64) -> (r: bool) ensures r ==
 pub assume_specification [ f64::min ] (a: f64, b: f64) -> f64;
 pub assume_specification [ f64::max ] (a: f64, b: f64) -> f64;
 
+// `(0.0..=1.0).contains(&rank)`: the documented argument range of quantile (floats stay uninterpreted)
+pub uninterp spec fn f_in_unit(x: f64) -> bool;
+#[verifier::external_body] fn vx_in_unit_interval(rank: &f64) -> (r: bool) ensures r == f_in_unit(*rank) { (0.0..=1.0).contains(rank) }
+#[verifier::external_body] fn vx_f64_infinity() -> f64 { f64::INFINITY }
+#[verifier::external_body] fn vx_f64_neg_infinity() -> f64 { f64::NEG_INFINITY }
+// error.rs: only the fact that an error value is built
+struct Error { k: u8 }
+impl Error {
+    #[verifier::external_body] fn invalid_argument(msg: impl Into<String>) -> Error { Error { k: 1 } }
+}
+
 // ================= std leaves =================
 pub assume_specification<T, F: FnMut(&T, &T) -> Ordering> [ <[T]>::sort_by ] (s: &mut [T], compare: F)
   ensures final(s)@.len() == old(s)@.len(), final(s)@.to_multiset() == old(s)@.to_multiset();
@@ -45,8 +56,11 @@ pub assume_specification<T> [ <[T]>::reverse ] (s: &mut [T])
 #[verifier::external_body] fn normalizer(compression: f64, n: f64) -> f64 { compression / (4. * (n / compression).ln() + 24.) }
 #[verifier::external_body] fn max(q: f64, normalizer: f64) -> f64 { q * (1. - q) / normalizer }
 
-const DEFAULT_K: u16 = 200;
+const DEFAULT_K : u16 = 200 ;
+
 const BUFFER_MULTIPLIER : usize = 4 ;
+
+
 
 exec const DEFAULT_WEIGHT : NonZeroU64 ensures DEFAULT_WEIGHT . get ( ) == 1 {
 proof {
@@ -54,21 +68,31 @@ proof {
 NonZeroU64 :: new ( 1 ) . unwrap ( ) }
 
 
+
+
 #[derive(Debug, Clone, Copy, PartialEq)]
 struct Centroid {
 mean : f64 , weight : NonZeroU64 , }
+
+
 
 
 struct TDigestMut {
 k : u16 , reverse_merge : bool , min : f64 , max : f64 , centroids : Vec < Centroid > , centroids_weight : u64 , centroids_capacity : usize , buffer : Vec < f64 > , }
 
 
+
+
 struct TDigest {
 k : u16 , reverse_merge : bool , min : f64 , max : f64 , centroids : Vec < Centroid > , centroids_weight : u64 , }
 
 
+
+
 struct TDigestView < 'a > {
 min : f64 , max : f64 , centroids : & 'a [ Centroid ] , centroids_weight : u64 , }
+
+
 
 
 // ================= integer skeleton: weights =================
@@ -175,6 +199,8 @@ impl Centroid {
     fn weight ( & self ) -> f64 {
 self . weight . get ( ) as f64 }
 
+
+
 }
 #[verifier::external_body]
 fn centroid_cmp(a: &Centroid, b: &Centroid) -> Ordering { unimplemented!() }
@@ -205,6 +231,15 @@ panic! ( ) ;
 }
 
 
+
+
+impl Default for TDigestMut {
+    fn default ( ) -> ( r : Self ) ensures
+/*@C10.default_k*/ r . is_default ( ) {
+TDigestMut :: new ( DEFAULT_K ) }
+
+}
+
 impl TDigestMut {
     spec fn cfg_ok(&self) -> bool { self.k >= 10 && self.centroids_capacity == cap_of_k(self.k) }
     spec fn total(&self) -> int { self.centroids_weight + self.buffer@.len() }
@@ -232,6 +267,8 @@ k , reverse_merge , min , max , centroids , centroids_weight , centroids_capacit
 }
 
 
+
+
     fn update ( & mut self , value : f64 ) requires old ( self ) . wf ( ) , old ( self ) . total ( ) < u64 :: MAX ensures
 /*@C10.update_keeps_invariant*/ final ( self ) . wf ( ) , final ( self ) . same_cfg ( old ( self ) ) ,
 /*@C10.nonfinite_ignored*/ ! f_finite ( value ) ==> * final ( self ) == * old ( self ) ,
@@ -249,8 +286,73 @@ self . max = self . max . max ( value ) ;
 }
 
 
+
+
     fn is_empty ( & self ) -> ( r : bool ) ensures r == ( self . centroids @ . len ( ) == 0 && self . buffer @ . len ( ) == 0 ) {
 self . centroids . is_empty ( ) && self . buffer . is_empty ( ) }
+
+
+
+
+
+    // what `Default::default()` gives (closed: the ensures of a trait method must be visible to every caller)
+    pub closed spec fn is_default(&self) -> bool { self.wf() && self.empty() && self.k == 200 && self.total() == 0 }
+
+    // verified in unit td_codec (against the serialized image); here only the integer facts the wrappers need
+    #[verifier::external_body]
+    fn new(k: u16) -> (r: Self)
+      requires k >= 10
+      ensures r.wf(), r.empty(), r.k == k, r.total() == 0
+    { unimplemented!() }
+
+    fn try_new ( k : u16 ) -> ( r : Result < Self , Error > ) ensures
+/*@C10.try_new_k_check*/ r is Ok <==> k >= 10 ,
+/*@C10.new_empty*/ r matches Ok ( t ) ==> t . wf ( ) && t . empty ( ) && t . k == k && t . total ( ) == 0 , {
+if k < 10 {
+return Err ( Error :: invalid_argument ( format! ( "k must be at least 10, got {k}" ) ) ) ;
+}
+proof {
+assert ( wsum ( Seq :: < Centroid > :: empty ( ) ) == 0 ) ;
+}
+Ok ( TDigestMut :: make ( k , false , vx_f64_infinity ( ) , vx_f64_neg_infinity ( ) , vec! [ ] , 0 , vec! [ ] , ) ) }
+
+
+
+    fn k ( & self ) -> ( r : u16 ) ensures
+/*@C10.k_getter*/ r == self . k {
+self . k }
+
+
+
+    fn rank ( & mut self , value : f64 ) -> ( r : Option < f64 > ) requires old ( self ) . wf ( ) , ! f_is_nan ( value ) ensures final ( self ) . wf ( ) , final ( self ) . same_cfg ( old ( self ) ) , final ( self ) . total ( ) == old ( self ) . total ( ) ,
+/*@C10.rank_shape*/ r is None <==> old ( self ) . empty ( ) , {
+assert! ( ! value . is_nan ( ) ) ;
+if self . is_empty ( ) {
+return None ;
+}
+if value < self . min {
+return Some ( 0.0 ) ;
+}
+if value > self . max {
+return Some ( 1.0 ) ;
+}
+proof {
+axiom_centroid_vec_len ( & self . centroids ) ;
+}
+if self . centroids . len ( ) + self . buffer . len ( ) == 1 {
+return Some ( 0.5 ) ;
+}
+self . view ( ) . rank ( value ) }
+
+
+
+    fn quantile ( & mut self , rank : f64 ) -> ( r : Option < f64 > ) requires old ( self ) . wf ( ) , f_in_unit ( rank ) ensures final ( self ) . wf ( ) , final ( self ) . same_cfg ( old ( self ) ) , final ( self ) . total ( ) == old ( self ) . total ( ) ,
+/*@C10.quantile_shape*/ r is None <==> old ( self ) . empty ( ) , {
+assert! ( vx_in_unit_interval ( & rank ) ) ;
+if self . is_empty ( ) {
+return None ;
+}
+self . view ( ) . quantile ( rank ) }
 
 
 
@@ -262,6 +364,8 @@ Some ( self . min ) }
 }
 
 
+
+
     fn max_value ( & self ) -> ( r : Option < f64 > ) ensures r is None <==> self . empty ( ) , r matches Some ( v ) ==> v == self . max {
 if self . is_empty ( ) {
 None }
@@ -270,9 +374,13 @@ Some ( self . max ) }
 }
 
 
+
+
     fn total_weight ( & self ) -> ( r : u64 ) requires self . total ( ) <= u64 :: MAX ensures
 /*@C10.total_weight*/ r == self . centroids_weight + self . buffer @ . len ( ) {
 self . centroids_weight + self . buffer . len ( ) as u64 }
+
+
 
 
     fn merge ( & mut self , other : & TDigestMut ) requires old ( self ) . wf ( ) , other . wf ( ) , old ( self ) . total ( ) + other . total ( ) <= u64 :: MAX ensures final ( self ) . wf ( ) , final ( self ) . same_cfg ( old ( self ) ) ,
@@ -332,11 +440,15 @@ self . do_merge ( tmp , self . buffer . len ( ) as u64 + other . total_weight ( 
 
 
 
+
+
     fn view ( & mut self ) -> ( r : TDigestView < '_ > ) requires old ( self ) . wf ( ) ensures r . centroids @ == final ( self ) . centroids @ , r . centroids_weight == final ( self ) . centroids_weight , final ( self ) . wf ( ) , final ( self ) . same_cfg ( old ( self ) ) , final ( self ) . total ( ) == old ( self ) . total ( ) , final ( self ) . buffer @ . len ( ) == 0 , ! old ( self ) . empty ( ) ==> final ( self ) . centroids @ . len ( ) >= 1 , {
 self . compress ( ) ;
 TDigestView {
 min : self . min , max : self . max , centroids : & self . centroids , centroids_weight : self . centroids_weight , }
 }
+
+
 
 
     fn cdf ( & mut self , split_points : & [ f64 ] ) -> ( r : Option < Vec < f64 >> ) requires old ( self ) . wf ( ) , split_points @ . len ( ) == 1 ==> ! f_is_nan ( split_points @ [ 0 ] ) , forall | i : int | 0 <= i < split_points @ . len ( ) - 1 ==> f_lt ( # [ trigger ] split_points @ [ i ] , split_points @ [ i + 1 ] ) , ensures final ( self ) . wf ( ) , final ( self ) . total ( ) == old ( self ) . total ( ) ,
@@ -349,6 +461,8 @@ return None ;
 self . view ( ) . cdf ( split_points ) }
 
 
+
+
     fn pmf ( & mut self , split_points : & [ f64 ] ) -> ( r : Option < Vec < f64 >> ) requires old ( self ) . wf ( ) , split_points @ . len ( ) == 1 ==> ! f_is_nan ( split_points @ [ 0 ] ) , forall | i : int | 0 <= i < split_points @ . len ( ) - 1 ==> f_lt ( # [ trigger ] split_points @ [ i ] , split_points @ [ i + 1 ] ) , ensures final ( self ) . wf ( ) , final ( self ) . total ( ) == old ( self ) . total ( ) ,
 /*@C10.pmf_shape*/ r is None <==> old ( self ) . empty ( ) ,
 /*@C10.cdf_pmf_len*/ r matches Some ( v ) ==> v @ . len ( ) == split_points @ . len ( ) + 1 , {
@@ -359,8 +473,12 @@ return None ;
 self . view ( ) . pmf ( split_points ) }
 
 
+
+
     fn is_single_value ( & self ) -> ( r : bool ) requires self . total ( ) <= u64 :: MAX ensures r == ( self . total ( ) == 1 ) {
 self . total_weight ( ) == 1 }
+
+
 
 
     fn compress ( & mut self ) requires old ( self ) . wf ( ) ensures final ( self ) . wf ( ) , final ( self ) . same_cfg ( old ( self ) ) ,
@@ -387,6 +505,8 @@ lemma_wsum_push ( t0 , tmp @ . last ( ) ) ;
 vx_i1 += 1 ;
 }
 self . do_merge ( tmp , self . buffer . len ( ) as u64 ) }
+
+
 
 
     fn do_merge ( & mut self , mut buffer : Vec < Centroid > , weight : u64 ) requires old ( self ) . cfg_ok ( ) , wsum ( old ( self ) . centroids @ ) == old ( self ) . centroids_weight , buffer @ . len ( ) >= 1 , wsum ( buffer @ ) == weight , old ( self ) . centroids_weight + weight <= u64 :: MAX , ensures final ( self ) . cfg_ok ( ) , final ( self ) . same_cfg ( old ( self ) ) ,
@@ -478,6 +598,8 @@ self . reverse_merge = ! self . reverse_merge ;
 self . buffer . clear ( ) ;
 }
 
+
+
 }
 
 
@@ -489,10 +611,14 @@ impl TDigest {
 self . centroids_weight }
 
 
+
+
     fn view ( & self ) -> ( r : TDigestView < '_ > ) ensures r . centroids @ == self . centroids @ , r . centroids_weight == self . centroids_weight {
 TDigestView {
 min : self . min , max : self . max , centroids : & self . centroids , centroids_weight : self . centroids_weight , }
 }
+
+
 
 
     fn cdf ( & self , split_points : & [ f64 ] ) -> ( r : Option < Vec < f64 >> ) requires split_points @ . len ( ) == 1 ==> ! f_is_nan ( split_points @ [ 0 ] ) , forall | i : int | 0 <= i < split_points @ . len ( ) - 1 ==> f_lt ( # [ trigger ] split_points @ [ i ] , split_points @ [ i + 1 ] ) , ensures
@@ -501,19 +627,76 @@ min : self . min , max : self . max , centroids : & self . centroids , centroids
 self . view ( ) . cdf ( split_points ) }
 
 
+
+
     fn pmf ( & self , split_points : & [ f64 ] ) -> ( r : Option < Vec < f64 >> ) requires split_points @ . len ( ) == 1 ==> ! f_is_nan ( split_points @ [ 0 ] ) , forall | i : int | 0 <= i < split_points @ . len ( ) - 1 ==> f_lt ( # [ trigger ] split_points @ [ i ] , split_points @ [ i + 1 ] ) , ensures
 /*@C10.pmf_shape*/ r is None <==> self . centroids @ . len ( ) == 0 ,
 /*@C10.cdf_pmf_len*/ r matches Some ( v ) ==> v @ . len ( ) == split_points @ . len ( ) + 1 , {
 self . view ( ) . pmf ( split_points ) }
 
 
+
+
+    fn k ( & self ) -> ( r : u16 ) ensures
+/*@C10.k_getter*/ r == self . k {
+self . k }
+
+
+
+    fn is_empty ( & self ) -> ( r : bool ) ensures
+/*@C10.frozen_is_empty*/ r == ( self . centroids @ . len ( ) == 0 ) {
+self . centroids . is_empty ( ) }
+
+
+
+    fn min_value ( & self ) -> ( r : Option < f64 > ) ensures r is None <==> self . centroids @ . len ( ) == 0 , r matches Some ( v ) ==> v == self . min {
+if self . is_empty ( ) {
+None }
+else {
+Some ( self . min ) }
+}
+
+
+
+    fn max_value ( & self ) -> ( r : Option < f64 > ) ensures r is None <==> self . centroids @ . len ( ) == 0 , r matches Some ( v ) ==> v == self . max {
+if self . is_empty ( ) {
+None }
+else {
+Some ( self . max ) }
+}
+
+
+
+    fn rank ( & self , value : f64 ) -> ( r : Option < f64 > ) requires ! f_is_nan ( value ) ensures
+/*@C10.rank_shape*/ r is None <==> self . centroids @ . len ( ) == 0 {
+assert! ( ! value . is_nan ( ) ) ;
+self . view ( ) . rank ( value ) }
+
+
+
+    fn quantile ( & self , rank : f64 ) -> ( r : Option < f64 > ) requires f_in_unit ( rank ) ensures
+/*@C10.quantile_shape*/ r is None <==> self . centroids @ . len ( ) == 0 {
+assert! ( vx_in_unit_interval ( & rank ) ) ;
+self . view ( ) . quantile ( rank ) }
+
+
+
     fn unfreeze ( self ) -> ( r : TDigestMut ) requires self . wf ( ) ensures r . wf ( ) ,
 /*@C10.unfreeze_keeps_total*/ r . total ( ) == self . centroids_weight , r . k == self . k , r . centroids @ == self . centroids @ , {
 TDigestMut :: make ( self . k , self . reverse_merge , self . min , self . max , self . centroids , self . centroids_weight , vec! [ ] , ) }
 
+
+
 }
 
 impl TDigestView<'_> {
+    // float interpolation: opaque; ASSUMED only the None/Some shape (first statements of the real body)
+    #[verifier::external_body]
+    fn quantile(&self, rank: f64) -> (r: Option<f64>)
+      requires f_in_unit(rank)
+      ensures r is None <==> self.centroids@.len() == 0
+    { unimplemented!() }
+
     #[verifier::external_body]
     fn rank(&self, value: f64) -> (r: Option<f64>)
       requires !f_is_nan(value)
@@ -535,6 +718,8 @@ axiom_float_total ( ) ;
 buckets [ i ] = buckets [ i ] - buckets [ i - 1 ] ;
 }
 Some ( buckets ) }
+
+
 
 
     fn cdf ( & self , split_points : & [ f64 ] ) -> ( r : Option < Vec < f64 >> ) requires split_points @ . len ( ) == 1 ==> ! f_is_nan ( split_points @ [ 0 ] ) , forall | i : int | 0 <= i < split_points @ . len ( ) - 1 ==> f_lt ( # [ trigger ] split_points @ [ i ] , split_points @ [ i + 1 ] ) , ensures
@@ -567,6 +752,8 @@ vx_i1 += 1 ;
 }
 ranks . push ( 1.0 ) ;
 Some ( ranks ) }
+
+
 
 }
 }
